@@ -98,6 +98,22 @@ G = {
     termination theorem over a model or name it in the notes as not proved.
 """),
  'C02': dict(cmd='c02', hours=4, goals="""
+ 0. (FIRST) COLLECTOR BLOCKS. `.. * <- *:` blocks and what Parser.postProcess makes of them (pkg/parse/parse.go
+    collectorPubSubCalls / applyAttributes: the attributes declared on a collector entry are applied to EVERY matching call
+    statement of the application's endpoints, at any nesting depth — if/else, loops, for each, one of, groups — and however
+    many times the same target/endpoint is called inside one block) are not modelled and not generated. Add them to `denote`
+    (transliterate applyAttributes' recursion exactly, including its boolean accumulation), to the generator (the same call
+    repeated 2-4 times inside one nested block, first match in a deeper sub-block, matches in sibling blocks and in different
+    one-of choices, several collector entries hitting one call), to the Intent oracle (every matching call carries the
+    collector's attributes; no other does) and to the correspondence; theorem `collector_applies_to_all_matches`.
+ 0b. DECLARATION ORDER AND LISTENER STATE. The listener keeps "current" maps between callbacks (`s.typemap`, `s.fieldname`,
+    current type path, rest_* stacks); which of them are reset when a block ends is invisible unless a LATER declaration of
+    another kind uses them. Generate, inside one application, every ordered pair (and some triples) of member kinds —
+    `!type` / `!table` / `!enum` / `!alias` / `!union` / view / simple endpoint with and without parameter list / REST path
+    with path variables typed `int`, `Type`, `Type.field`, `App.Type` / event / mixin / annotation — so that each kind is
+    followed directly by each other kind; oracle: nothing undeclared appears and nothing declared is altered (a declared
+    field keeps its type and tags; a type gets no field it did not declare). Model the resets as the code does them (Gen
+    fact: which listener fields each Exit* handler clears) and prove `member_order_irrelevant` for the modelled kinds.
  1. notes/C02.md "Still missing": the GLOBAL equality `listen s = Some (canon s)` / `denote_canon` excludes REST endpoints and
     subscriptions. Extend `wf_sub`, `canon` and the proofs to REST trees (prefix / attribute stacks in closed form, path
     variables, query parameters, every HTTP verb) and to subscriptions (they write into the publisher's application; the
@@ -110,6 +126,14 @@ G = {
  3. Multi-file specifications (imports; the same application continued in an imported file) through the same pipeline.
 """),
  'C03': dict(cmd='c03', hours=4, goals="""
+ 0. (FIRST) LAYOUT INSIDE MULTI-LINE CONSTRUCTS. The insertion transformations (blank line, whole-line comment at column 0 or
+    indented) are applied between declarations and statements, but not BETWEEN THE LINES OF ONE MULTI-LINE CONSTRUCT: two or
+    more consecutive `| text` doc-string lines of one statement (in simple endpoints, nested blocks, REST methods, as
+    endpoint docstring), multi-line `@x =:` annotation blocks, multi-line array attributes, a run of `@` annotations, the
+    choices of a one-of, `else` after `if`. Generate specs rich in these and insert at EVERY line boundary of the file
+    (bounded-exhaustive for small files). Where the listener coalesces lines (EnterText_stmt / EnterDoc_string) the model
+    must say on what it decides (token adjacency in the default channel, never line numbers): transliterate that decision
+    and prove it invariant under the insertions; a listener that consults `GetLine()` for model content should break it.
  1. notes/C03.md "Not covered": that the parser + listener depend only on the default-channel token sequence is sampled only,
     and layout changes inside view bodies / expressions (lexer modes with predicates on `spaces`, `inSqBrackets`,
     `blockTextLine`, `noMoreImports`, `startsWithKeyword`) are limited. Model the lexer's hand-written STATE (pkg/grammar/
@@ -166,6 +190,13 @@ G = {
  3. Thorough tier: keep the cold-start race batch; add `-race` runs of the new streams.
 """),
  'C08': dict(cmd='c08', hours=4, goals="""
+ 0. (FIRST) TINY FILES AND HELPER STATE ACROSS FILES. The position helper (`sourceCtxHelper` in pkg/parse/utils.go, the listener's
+    `sc`, `lastEnd`) lives across the files of one compilation; how parseSpecs switches it from file to file is part of
+    the model (Gen fact: a fresh helper per file vs fields assigned in place). Generate multi-file specifications made of
+    very small files: an imported file holding nothing but a body-less, attribute-less application (`Legacy:\n    ...`),
+    files that begin — without imports, comments or attributes — with an application header of the same token shape as
+    the previous file's last element, files whose first element has the same token indices as the last element of the file
+    parsed before it, in every import order; oracle as before (file = declaring file, start = first character).
  1. notes/C08.md "Not covered": views / expressions, parameter and path/query parameter types, mixins, imports' own context,
     enum / alias / union, collector / subscribe, doc-string statements, multi-line annotation values, in-place tuples, CRLF.
     Add element kinds to the walk model, the recording renderer and the oracle in that order, green after each. End
@@ -191,6 +222,14 @@ G = {
     the generator's whole range with proto.Equal AND byte-stable re-encoding (second encode equals first).
 """),
  'C10': dict(cmd='c10', hours=4, goals="""
+ 0. (FIRST) CALL RESOLUTION. `evalCall` (pkg/eval/exprEval.go) resolves a call name against, in a fixed order, the transform
+    application's own views, the `.count`-style builtins and the native Go helper table GoFuncMap (Contains, Count, Fields,
+    FindAllString, HasPrefix, HasSuffix, Join, LastIndex, MatchString, Replace, Split, Title, ToLower, ToTitle, ToUpper, Trim,
+    TrimLeft, TrimPrefix, TrimRight, TrimSpace, TrimSuffix). Model the lookup order (Gen fact from the statement order of
+    evalCall + the key set of GoFuncMap), generate views whose NAME is one of the helper names and that are CALLED from
+    another view (with fitting and non-fitting arity / argument kinds), unknown names, and helpers called directly; oracle:
+    a call to a defined view evaluates that view's body on the arguments — the same view on the same arguments gives the
+    same value whether reached by call or by EvaluateView; theorem `call_resolves_to_view_first`.
  1. notes/C10.md "Not covered": decimals / floats (model as exact rationals or skip arithmetic but cover comparison and
     dispatch), templates / string formatting built-ins, whereMap, union of map sets, `single`, `str`, bool negation,
     map-entry transforms; the parser route covers only the renderable subset. Add operators and value kinds to `Value.v` /
@@ -222,8 +261,14 @@ G = {
     `Stmt`. Model the label pipeline (pkg/cmdutils Labeler / format strings with %(epname), %(appname), %(@attr), controls,
     `~` patterns, the `seqtitle` / `appfmt` / `epfmt` attributes; MergeAttributes) over strings, prove it pure and total
     (every format string, every attribute map: a label or an error, no panic, attributes of the model never written), tie it
-    by comparing the label texts of the real diagram; add the blackbox / upto options (`--blackbox`, per-endpoint blackboxes
-    from attributes) to the model with the theorem "nothing below a blackbox is drawn, everything above is".
+    by comparing the label texts of the real diagram; add the blackbox / upto options to the model with the theorem "nothing below a blackbox is drawn, everything above is",
+    and drive them through EVERY entry point the code has, not by handing ready-made Upto maps to GenerateSequenceDiag:
+    the command-line form (`-b 'App <- Ep=note'`, cmdutils.TransformBlackboxesToUptos / ParseBlackBoxesFromArgument,
+    CmdContextParamSeqgen.Blackboxes / BlackboxesFlag), the `blackboxes` attribute of a project endpoint / application in the
+    templated (`-a`, %(epname)) mode, with notes that are empty, a single blank, white space only, one character, with
+    surrounding spaces, and keys with odd spacing around `<-`; the conventions between these sites (what a one-character or
+    empty comment means in MakeEndpointCollectionElement) belong in the model. Oracle: an endpoint named as a blackbox in
+    any accepted form is a cut point (no arrow below it); a blackbox that was given but not hit is reported.
  2. The `follows the call tree` half at full strength: arrows = pre-order of the call tree with cycles cut at the first
     repeated (app, endpoint) pair ON THE CURRENT PATH — check that the model's cut rule is the code's (visited counter
     semantics) for re-entrancy through different endpoints, and prove the tree theorem without the reachability hypothesis
@@ -246,6 +291,12 @@ G = {
  3. Mermaid data-model view (pkg/mermaid/datamodeldiagram) under the same oracle.
 """),
  'C16': dict(cmd='c16', hours=4, goals="""
+ 0. (FIRST) COLUMN KINDS IN DELTAS. For a table present in both versions, and for a table new in the second version, add /
+    remove / retype columns of every type kind the compiler can produce: primitive (each), `Table.column` reference,
+    reference to an alias or `!type` of the application (`price <: Money`), reference to an undefined name, set / sequence of
+    each. The creation path and the delta path must treat each kind the same way (same column definition or the same
+    documented omission) and neither may panic; put the column-definition function (writeCreateSQLForAColumn) and its
+    callers' post-processing of the returned text in the model.
  1. notes/C16.md "Not covered": dropped tables, multi-app runs, non-table types in the app, uniqueness / type compatibility
     of referenced columns. Extend the delta model to table removal (DROP order must be reverse dependency order), table
     addition together with references to it from retained tables, renamed primary keys, several applications in one run
@@ -285,6 +336,17 @@ G = {
     mutable variables in generator packages + harness stream running generators in different orders.
 """),
  'C20': dict(cmd='c20', hours=4, goals="""
+ 0. (FIRST) RICHER CYCLES. The untidy models have cycles with one edge per direction. For every generator with a visited /
+    in-progress set (`sysl ints` WalkPassthrough with `passthrough=[...]`, sd, mermaid, db depth) generate cycles in which EACH of
+    two or three nodes has two or more edges to the other (calls in `if` and `else`, retries, at different nesting depths),
+    cycles with chords, and self loops repeated; the walk model's marker discipline (when a key is marked, when unmarked,
+    relative to the re-entry test) must be read from the source as a Gen fact, `walk_terminates` must hold for that
+    discipline on all graphs, and a `…_refuted` companion shows that un-marking on a cut re-entry loses termination.
+ 0b. DELTA COMMAND INPUTS. `generate-db-scripts-delta` is run on version pairs: for a table present in BOTH versions add, remove
+    and retype columns of EVERY type kind — primitive, `Table.column` reference, reference to an alias / `!type` of the
+    application (`price <: Money`), reference to a name defined nowhere, set / sequence — and the same for tables new in the
+    second version; every such pair must end with a script or an error, never a panic (watch the string surgery on returned
+    column definitions, e.g. trimming a trailing comma of an empty string).
  1. notes/C20.md "Not covered": `codegen`, `template`, `transform`, `test-rig`, `repl`, `lsp`, options whose value does
     not compile as a regular expression. Add every remaining CLI command that can run offline to the command outcome model
     and the subprocess matrix (for each: the guard structure read from the source, fuel for its recursion, and the verdict
